@@ -86,7 +86,7 @@ pub enum Ev {
     /// change what later definitions resolve to)
     FailStorm { ctx: u8, count: u16 },
     /// `count` valid instantiations in a row: handles stay unique, old operators stay put
-    OpBurst { ctx: u8, count: u16 },
+    OpBurst { ctx: u8, count: u32 },
     /// `count` registrations in a row (macros bulk:0.. and operators bulkop0..)
     RegisterBurst { ctx: u8, count: u16 },
     Clear,
@@ -196,7 +196,7 @@ pub fn nt_grid_bytes(version: u32) -> Vec<u8> {
     };
     let base = make("BASE", "NONE", 0.0, 0.0, 5, 5, 3600.0);
     let child = make("CHILD", "BASE", 3600.0, 3600.0, 5, 5, 1800.0);
-    Ntv2Spec { big_endian: version % 2 == 0, subgrids: if version % 3 == 0 { vec![child, base] } else { vec![base, child] } }.encode()
+    Ntv2Spec { big_endian: version % 2 == 0, subgrids: if version % 3 == 0 { vec![child, base] } else { vec![base, child] }, meta: (version % 4) as u8 }.encode()
 }
 
 pub fn grid_bytes(version: u32) -> Vec<u8> {
@@ -410,7 +410,10 @@ fn gen_register(rng: &mut Rng, prefix: &str) -> String {
     let suffixes: Vec<&str> = FILE_MACROS.iter().filter(|(p, _)| *p == prefix).map(|(_, s)| *s).collect();
     let eol = *rng.pick(&["\n", "\n", "\r\n", "\r"]);
     let mut out = String::new();
-    let start_with_fence = rng.chance(0.25);
+    // a large register now and then, laid out so that the tag line of one item straddles
+    // a typical I/O block boundary (4 KiB ... 128 KiB)
+    let straddle: Option<usize> = if rng.chance(0.05) { Some(*rng.pick(&[4096usize, 8192, 16384, 32768, 65536, 131072])) } else { None };
+    let start_with_fence = straddle.is_none() && rng.chance(0.25);
     if !start_with_fence {
         out.push_str(&format!("# Register {}{}{}", prefix, eol, eol));
     }
@@ -425,6 +428,21 @@ fn gen_register(rng: &mut Rng, prefix: &str) -> String {
             if rng.chance(0.5) {
                 out.push_str(&format!("## Item {}{}{}", s, eol, eol));
             }
+        }
+        if let (Some(boundary), true) = (straddle, i == last) {
+            // prose up to a few bytes before the boundary, so that the tag crosses it
+            let tag_len = "```geodesy:".len() + s.len();
+            let target = boundary - 1 - rng.below(tag_len - 1);
+            let mut filler = String::new();
+            while out.len() + filler.len() + 64 < target {
+                filler.push_str("Lorem ipsum dolor sit amet, consectetur adipiscing elit sed do.");
+                filler.push_str(eol);
+            }
+            while out.len() + filler.len() + eol.len() < target {
+                filler.push('.');
+            }
+            filler.push_str(eol);
+            out.push_str(&filler);
         }
         out.push_str(&format!("```geodesy:{}{}", s, eol));
         if rng.chance(0.2) {
@@ -468,15 +486,15 @@ impl Engine for RegSim {
                 "macro invocations carry no arguments (argument passing is C04's subject), so that a macro's value is its body's value",
                 "the sequential cache model is exact: a grid lookup is served from the cache if the name is cached, else from the first root holding the file",
             ],
-            required_probes: &["shadow_builtin_after_creation", "reregistration_after_creation", "foreign_handle", "forged_handle", "file_macro_from_resource_file", "file_macro_from_register", "register_item_at_eof_without_terminator", "register_item_first_in_file", "register_cr_only", "runtime_beats_file", "second_root_used", "broken_file_falls_through", "grid_replaced_while_cached", "clear_then_new_version", "refusing_constructor", "recursive_macro", "op_after_clear_old_handle_alive", "op_from_another_os_thread", "storm_of_failing_instantiations", "burst_of_instantiations", "burst_of_registrations", "context_created_before_its_search_roots", "ntv2_operator_created"],
+            required_probes: &["shadow_builtin_after_creation", "reregistration_after_creation", "foreign_handle", "forged_handle", "file_macro_from_resource_file", "file_macro_from_register", "register_item_at_eof_without_terminator", "register_item_first_in_file", "register_cr_only", "runtime_beats_file", "second_root_used", "broken_file_falls_through", "grid_replaced_while_cached", "clear_then_new_version", "refusing_constructor", "recursive_macro", "op_after_clear_old_handle_alive", "op_from_another_os_thread", "storm_of_failing_instantiations", "burst_of_instantiations", "burst_of_registrations", "large_register_with_tag_across_a_block_boundary", "context_created_before_its_search_roots", "ntv2_operator_created"],
             exhaustive: false,
         }
     }
 
     fn runs(&self, tier: Tier) -> u64 {
         match tier {
-            Tier::Quick => 500_000,
-            Tier::Thorough => 12_000_000,
+            Tier::Quick => 350_000,
+            Tier::Thorough => 8_000_000,
         }
     }
 
@@ -518,7 +536,9 @@ impl Engine for RegSim {
                     } else if rng.chance(0.05) {
                         events.push(Ev::RegisterBurst { ctx, count: *rng.pick(&[10u16, 70, 300, 1100]) });
                     } else if rng.chance(0.05) {
-                        events.push(Ev::OpBurst { ctx, count: *rng.pick(&[20u16, 300, 700]) });
+                        // (a burst long enough to wrap a 16 bit counter is expensive: about one second)
+                        let count = if rng.chance(0.015) { 70_000 } else { *rng.pick(&[20u32, 300, 700]) };
+                        events.push(Ev::OpBurst { ctx, count });
                     } else {
                         events.push(Ev::Forged { ctx });
                     }
@@ -1036,6 +1056,9 @@ impl Engine for RegSim {
                     let w = (*root % 2) as usize;
                     let path = root_dir(&self.root, *root).join("resources").join(file);
                     write_file(&path, text.as_bytes());
+                    if text.len() > 4000 {
+                        rec.probe("large_register_with_tag_across_a_block_boundary");
+                    }
                     world.roots[w].resources.insert(file.clone(), Some(text.clone()));
                     changed_world = true;
                     rec.logf(|| format!("e{} root{} write {} ({} bytes)", k, w, file, text.len()));
